@@ -4,7 +4,7 @@ cd "$(dirname "$0")/.."
 OUT=${SWEEP_OUT:-/tmp/sweep}
 mkdir -p $OUT
 for seed in "$@"; do
-  for c in C01 C02 C03 C04 C05 C06 C07 C08 C09 C10 C11 C12 C15 C16 C17 C18 C19 C20; do
+  for c in C01 C02 C03 C04 C05 C06 C07 C08 C09 C10 C11 C12 C13 C14 C15 C16 C17 C18 C19 C20; do
     VERIF_SEED=$seed VERIF_EVIDENCE_DIR=$OUT/evid_$seed ./check $c > $OUT/${c}_$seed.log 2>&1
     echo "$c seed=$seed exit=$? viol=$(grep -c '^VIOLATION' $OUT/${c}_$seed.log) known=$(grep -c '^KNOWN' $OUT/${c}_$seed.log)"
   done
